@@ -61,7 +61,9 @@ func (g *gen) kw(w string) {
 	g.emit(string(b))
 }
 
-var wsChoices = []string{" ", " ", "  ", "\t", "\n", "\r\n", " \n\t ", "\r"}
+var wsChoices = []string{" ", " ", "  ", "\t", "\n", "\r\n", " \n\t ", "\r",
+	// empty lines under every line-end convention, and mixtures of them
+	"\r\n\r\n", "\r\r", "\n\r\n\r", "\r\n\r", "\n\n", " \r\n \r\n\t"}
 
 func wordyEnd(s string) bool {
 	if s == "" {
@@ -253,7 +255,9 @@ func (g *gen) intLit() influxql.Expr {
 }
 
 func (g *gen) numLit() *influxql.NumberLiteral {
-	spell := []string{"1.5", "0.25", ".5", "10.0", "3.14159", "100.125", "0.0", "2.", "123456789.5"}
+	spell := []string{"1.5", "0.25", ".5", "10.0", "3.14159", "100.125", "0.0", "2.", "123456789.5",
+		// whole floats at the edges of the integer ranges and of exact representation, tiny and huge ones
+		"9223372036854775808.0", "9223372036854775807.0", "18446744073709551616.0", "9007199254740993.0", "4294967296.0", "1000000000000000000000.0", "0.000001", "0.0000001", "123456789012345678.0"}
 	s := pick(g.r, spell)
 	g.emit(s)
 	f, _ := strconv.ParseFloat(strings.TrimSuffix(s, "."), 64)
@@ -997,8 +1001,7 @@ func (g *gen) statement(kind string) influxql.Statement {
 				m.Regex = &influxql.RegexLiteral{Val: regexp.MustCompile("^c")}
 			} else {
 				g.emit("=")
-				m.Name = g.name()
-				g.ident(m.Name)
+				g.measurementName(m, false) // a source name: database and retention policy in front are part of the grammar
 			}
 			s.Source = m
 		}
